@@ -20,6 +20,8 @@ struct Twins {
 thread_local! {
     /// toll and spread ratios of the twins symbolic in [0, 10%] (each may be zero on its own)
     static SYM_FEES: std::cell::Cell<bool> = std::cell::Cell::new(false);
+    /// insurance fund balance at deployment in raw units (0 = the fixture's 5000 tokens)
+    static INS_FUNDS: std::cell::Cell<u128> = std::cell::Cell::new(0);
 }
 
 fn twins(fees: bool, partial: bool) -> Twins {
@@ -40,6 +42,10 @@ fn twins(fees: bool, partial: bool) -> Twins {
         }
         if partial {
             cfg.partial_ratio = Uint128::new(d / 4);
+        }
+        let thin = INS_FUNDS.with(|c| c.get());
+        if thin > 0 {
+            cfg.ins_funds = Uint128::new(thin);
         }
         cfg
     };
@@ -134,6 +140,27 @@ impl Twins {
 /// emptied (a transfer to a third party, in both deployments) before the close; 7-10 a funding
 /// settlement with a symbolic oracle price, then close / opposite order / withdraw, increase and
 /// close / liquidation; 11 partial closes under a tight price band
+/// the same history on deployments whose insurance funds hold only `raw` units (a shortfall or a
+/// funding payment can exceed what the fund has while it is not empty)
+fn lockstep_thin_ins(kind: u8, side: Side, fees: bool, seed: u64, raw: u128) -> impl Fn() {
+    let f = lockstep(kind, side, fees, seed);
+    move || {
+        INS_FUNDS.with(|c| c.set(raw));
+        f();
+        INS_FUNDS.with(|c| c.set(0));
+    }
+}
+
+/// the same history with the native deployment on the other accepted denom (`ujunox`)
+fn lockstep_ujunox(kind: u8, side: Side, fees: bool, seed: u64) -> impl Fn() {
+    let f = lockstep(kind, side, fees, seed);
+    move || {
+        crate::world::set_denom("ujunox");
+        f();
+        crate::world::set_denom(crate::world::DENOM);
+    }
+}
+
 fn lockstep_symfees(kind: u8, side: Side, seed: u64) -> impl Fn() {
     let f = lockstep(kind, side, true, seed);
     move || {
@@ -396,6 +423,18 @@ pub fn scenarios(seed: u64) -> Vec<Scenario> {
         for (side, sn) in [(Side::Buy, "long"), (Side::Sell, "short")] {
             let tier = if side == Side::Sell && k != 3 { Tier::Thorough } else { Tier::Quick };
             v.push(sc("C13", tier, &format!("c13.{}.{}.symfees", kn, sn), "as above with toll and spread ratios symbolic in [0, 10%] (either may be zero on its own)", 500, 150, lockstep_symfees(k, side.clone(), seed)));
+        }
+    }
+    for (k, kn) in [(0u8, "open"), (2, "opposite"), (4, "depwd"), (7, "fund.close")] {
+        v.push(sc("C13", Tier::Quick, &format!("c13.{}.long.fees.ujunox", kn), "as the scenario of the same name, the native deployment using the other accepted denom (ujunox)", 500, 150, lockstep_ujunox(k, Side::Buy, true, seed)));
+    }
+    let dt = "as the scenario of the same name on deployments whose insurance funds hold one token / three tokens only: what the engine asks the fund for can exceed what it has while it is not empty";
+    for (k, kn) in [(7u8, "fund.close"), (10, "fund.liquidate"), (5, "liquidate"), (3, "close")] {
+        for (side, sn) in [(Side::Buy, "long"), (Side::Sell, "short")] {
+            for (raw, rn) in [(1_000_000u128, "ins1"), (3_000_000, "ins3")] {
+                let tier = if raw == 1_000_000 || k == 7 { Tier::Quick } else { Tier::Thorough };
+                v.push(sc("C13", tier, &format!("c13.{}.{}.{}", kn, sn, rn), dt, 500, 150, lockstep_thin_ins(k, side.clone(), false, seed, raw)));
+            }
         }
     }
     let dg = "twin deployments, pseudo-random lock-step history of 4-8 operations (opens of both sides and several leverages, closes incl. partial ones under a band, deposits, withdrawals, liquidation attempts, funding settlements with oracle moves) with per-history fees / partial ratio / liquidation fee / price band; concrete except the last operation";
